@@ -101,9 +101,7 @@ def check_seq_end(ctx):
       end_arg = call.args[2]
       end_def = None
       if isinstance(end_arg, ast.Name):
-        for st in loop.body:
-          if isinstance(st, ast.Assign) and len(st.targets) == 1 and isinstance(st.targets[0], ast.Name) and st.targets[0].id == end_arg.id:
-            end_def = st.value
+        end_def = match.local_value(loop.body, end_arg.id)
       else:
         end_def = end_arg
       if end_def is None:
